@@ -359,7 +359,9 @@ class QueryScheduler:
         self._min_time_between_queries_millis = delay
         self._loop: Optional[asyncio.AbstractEventLoop] = None
         self._startup_queries_sent = 0
-        self._next_scheduled_for_alias: Dict[str, _ScheduledPTRQuery] = {}
+        # keyed by (owner name, alias): an instance may be known through the pointer of
+        # its type and through pointers of subtypes, each with a lifetime of its own
+        self._next_scheduled_for_alias: Dict[Tuple[str, str], _ScheduledPTRQuery] = {}
         self._query_heap: list[_ScheduledPTRQuery] = []
         self._next_run: Optional[asyncio.TimerHandle] = None
         self._clock_resolution_millis = time.get_clock_info('monotonic').resolution * 1000
@@ -400,7 +402,7 @@ class QueryScheduler:
 
     def _schedule_ptr_query(self, scheduled_query: _ScheduledPTRQuery) -> None:
         """Schedule a query for a pointer."""
-        self._next_scheduled_for_alias[scheduled_query.alias.lower()] = scheduled_query
+        self._next_scheduled_for_alias[(scheduled_query.name.lower(), scheduled_query.alias.lower())] = scheduled_query
         heappush(self._query_heap, scheduled_query)
         self._rearm_if_earlier(scheduled_query.when_millis)
 
@@ -416,13 +418,13 @@ class QueryScheduler:
 
     def cancel_ptr_refresh(self, pointer: DNSPointer) -> None:
         """Cancel a query for a pointer."""
-        scheduled = self._next_scheduled_for_alias.pop(pointer.alias_key, None)
+        scheduled = self._next_scheduled_for_alias.pop((pointer.key, pointer.alias_key), None)
         if scheduled:
             scheduled.cancelled = True
 
     def reschedule_ptr_first_refresh(self, pointer: DNSPointer) -> None:
         """Reschedule a query for a pointer."""
-        current = self._next_scheduled_for_alias.get(pointer.alias_key)
+        current = self._next_scheduled_for_alias.get((pointer.key, pointer.alias_key))
         refresh_time_millis = pointer.get_expiration_time(_EXPIRE_REFRESH_TIME_PERCENT)
         expire_time_millis = pointer.get_expiration_time(100)
         if current is not None:
@@ -439,7 +441,7 @@ class QueryScheduler:
                 current.expire_time_millis = expire_time_millis
                 return
             current.cancelled = True
-            del self._next_scheduled_for_alias[pointer.alias_key]
+            del self._next_scheduled_for_alias[(pointer.key, pointer.alias_key)]
         self._schedule_ptr_refresh(pointer, expire_time_millis, refresh_time_millis)
 
     def schedule_rescue_query(
@@ -514,7 +516,7 @@ class QueryScheduler:
                 break
             query = heappop(self._query_heap)
             ready_types.add(query.name)
-            del self._next_scheduled_for_alias[query.alias.lower()]
+            del self._next_scheduled_for_alias[(query.name.lower(), query.alias.lower())]
             # If there is still more than 10% of the TTL remaining
             # schedule a query again to try to rescue the record
             # from expiring. If the record is refreshed before
